@@ -42,6 +42,22 @@ where CL03<CS>: Scheme<PubKey = CL03PublicKey, PrivKey = CL03SecretKey, Ciphersu
         if from_json::<CL03PublicKey>(&to_json(&pk)).as_ref() != Some(&pk) || from_json::<CL03SecretKey>(&to_json(&sk)).as_ref() != Some(&sk) { env.ctx.violation("C18:roundtrip:key-json", "serde round trip changes a key", env.case(&id, json!({}))); }
         env.ctx.state(&[id.as_bytes(), b"key"]); env.ctx.class("key pair"); env.ctx.trace();
         if k == 0 { crate::c13::codec_magnitudes::<CS>(env, &pk.N); }
+        // random_qr on small products of two safe primes, where the rejected outcomes (1, elements sharing a factor with N) are
+        // frequent enough to be met: every draw must be a square other than 1 and coprime to N (checked against the full list of
+        // such squares)
+        if k == 0 && CS::NAME == "CL1024" {
+            for (p_, q_) in [(5u32, 7u32), (7, 11), (11, 23), (23, 47), (47, 59)] {
+                let nn = Integer::from(p_ * q_);
+                let cid = format!("{}/random_qr/N={}", CS::NAME, p_ * q_);
+                let good: std::collections::BTreeSet<u32> = (1..p_ * q_).filter(|x| x % p_ != 0 && x % q_ != 0).map(|x| (x as u64 * x as u64 % (p_ * q_) as u64) as u32).filter(|&y| y != 1).collect();
+                let mut seen = std::collections::BTreeSet::new();
+                for _ in 0..4000 { let x = mccore::guard_val(|| random_qr(&nn)); env.ctx.step();
+                    match x { O::Ok(v) => { let u = v.to_u32().unwrap_or(0); seen.insert(u); if !good.contains(&u) { env.ctx.violation("C18:random_qr:not-a-proper-residue", &format!("random_qr({}) returned {}, which is 1, not a square, or not coprime to N", nn, v), env.case(&cid, json!({"N": p_ * q_, "value": u}))); break; } }
+                              o => { env.ctx.violation("C18:random_qr:failed", &o.describe(), env.case(&cid, json!({"N": p_ * q_}))); break; } } }
+                if p_ * q_ <= 253 && seen.len() != good.len() { env.ctx.violation("C18:random_qr:range", &format!("random_qr({}) produced {} distinct values in 4000 draws, there are {} proper residues", nn, seen.len(), good.len()), env.case(&cid, json!({"N": p_ * q_}))); }
+                env.ctx.state(&[cid.as_bytes()]); env.ctx.class("random_qr small modulus"); env.ctx.trace();
+            }
+        }
         for n in 0..=5usize {
             let cid = format!("{}/n_attributes={}", id, n);
             env.ctx.state(&[cid.as_bytes()]);
